@@ -22,7 +22,7 @@ package pkg
 //@   ensures [C08:nothing-evaluated] opaRejected ==> (result1 != nil && result0 == "" && !opaEvaluated)
 //@   requires [C11:fresh] eventChan != nil ==> (chanClosed == 0 && !evOpen && evNext == 0)
 //@   ensures [C11:closed-once] eventChan != nil ==> chanClosed == old(chanClosed) + 1
-//@   ensures [C04:no-verdict] !jsonTextValid(jsonldText) ==> (result1 != nil && result0 == "")
+//@   ensures [C04:no-verdict] !jsonOneDocument(jsonldText) ==> (result1 != nil && result0 == "")
 
 //@ func ValidateCompiled(compiledRegoPtr *rego.PreparedEvalQuery, jsonldText string, debug bool, eventChan *chan e.Event) (string, error)
 //@   verify [C03,C12,C14,C06]
@@ -31,7 +31,7 @@ package pkg
 //@   ensures [C04:jsonld-rejected-no-verdict] ldRejected ==> (result1 != nil && result0 == "")
 //@   requires [C11:compiled] eventChan != nil ==> (chanClosed == 0 && !evOpen && evNext == 3)
 //@   ensures [C11:closed-once] eventChan != nil ==> chanClosed == old(chanClosed) + 1
-//@   ensures [C04:no-verdict] !jsonTextValid(jsonldText) ==> (result1 != nil && result0 == "")
+//@   ensures [C04:no-verdict] !jsonOneDocument(jsonldText) ==> (result1 != nil && result0 == "")
 
 //@ func ValidateWithConfiguration(profileText string, jsonldText string, debug bool, eventChan *chan e.Event, validationConfig c.ValidationConfiguration, reportConfig c.ReportConfiguration) (string, error)
 //@   verify [C03,C12,C14,C06]
@@ -42,7 +42,7 @@ package pkg
 //@   ensures [C08:nothing-evaluated] opaRejected ==> (result1 != nil && result0 == "" && !opaEvaluated)
 //@   requires [C11:fresh] eventChan != nil ==> (chanClosed == 0 && !evOpen && evNext == 0)
 //@   ensures [C11:closed-once] eventChan != nil ==> chanClosed == old(chanClosed) + 1
-//@   ensures [C04:no-verdict] !jsonTextValid(jsonldText) ==> (result1 != nil && result0 == "")
+//@   ensures [C04:no-verdict] !jsonOneDocument(jsonldText) ==> (result1 != nil && result0 == "")
 //@   ensures [C09:equivalent-to-precompiled] compileErr(profileText) == nil ==> (result0 == libCompiledReport(compiledQuery(profileText), jsonldText, validationConfig, reportConfig) && result1 == libCompiledReportErr(compiledQuery(profileText), jsonldText, validationConfig, reportConfig))
 
 //@ func ValidateCompiledWithConfiguration(compiledRegoPtr *rego.PreparedEvalQuery, jsonldText string, debug bool, eventChan *chan e.Event, validationConfig c.ValidationConfiguration, reportConfig c.ReportConfiguration) (string, error)
@@ -52,5 +52,5 @@ package pkg
 //@   ensures [C04:jsonld-rejected-no-verdict] ldRejected ==> (result1 != nil && result0 == "")
 //@   requires [C11:compiled] eventChan != nil ==> (chanClosed == 0 && !evOpen && evNext == 3)
 //@   ensures [C11:closed-once] eventChan != nil ==> chanClosed == old(chanClosed) + 1
-//@   ensures [C04:no-verdict] !jsonTextValid(jsonldText) ==> (result1 != nil && result0 == "")
+//@   ensures [C04:no-verdict] !jsonOneDocument(jsonldText) ==> (result1 != nil && result0 == "")
 //@   ensures [C09:delegates] compiledRegoPtr != nil ==> (result0 == libCompiledReport(deref(compiledRegoPtr), jsonldText, validationConfig, reportConfig) && result1 == libCompiledReportErr(deref(compiledRegoPtr), jsonldText, validationConfig, reportConfig))
